@@ -759,7 +759,7 @@ REQUIRED = [
 if __name__ == "__main__":
     setup_repo_path()
     sys.exit(run_check(
-        "C19", lean_modules=["Pamiq.Props.C19"], required_theorems=REQUIRED,
+        "C19", lean_modules=["Pamiq.Props.C19", "Pamiq.Lemmas.TorchSync"], required_theorems=REQUIRED,
         suites=[suite_exhaustive, suite_flags, suite_random, suite_malformed],
         search=search, replay=replay, assumptions=ASSUMPTIONS,
         trusted_extra=["harness/stubs/torch (stand-in for PyTorch, behaviour listed in the assumptions)",
